@@ -85,7 +85,7 @@ func (cc *Coordinator) Configure() {
 	modules := viper.GetStringMap("consumer")
 	for name := range modules {
 		configRoot := "consumer." + name
-		if !viper.IsSet("cluster." + viper.GetString(configRoot+".cluster")) {
+		if !helpers.IsConfiguredEntry("cluster", viper.GetString(configRoot+".cluster")) {
 			panic("Consumer '" + name + "' references an unknown cluster '" + viper.GetString(configRoot+".cluster") + "'")
 		}
 		module := getModuleForClass(cc.App, name, viper.GetString(configRoot+".class-name"))
